@@ -34,8 +34,15 @@ Assumed contracts (every one is exercised natively by replay/c19_conformance.py;
   * `jax.tree_util.tree_map / tree_leaves` over flax `struct.dataclass` / `eqx.Module` records (fields marked
     `pytree_node=False` / `static=True` are not leaves), tuples, lists and None.
 
-Everything registers itself through `engine.EXTERNAL` and the hooks of `pyvc.models` (previous hooks are chained); three
-functions of `pyvc.models` without a hook are wrapped (not edited): `compare`, `unary`, `fresh_like`.
+Value classes: every numeric array additionally carries (lazily) an over-approximation of the classes
+neg | zero | pos | +inf | -inf | nan its elements can take; the abstract transformer of an element-wise operation is derived
+from its concrete scalar semantics by z3, see "value classes" below.  Used for NaN-freedom obligations.
+
+Concrete shapes: when every extent is a python int all library facts are expanded (quantifier-free), `jx_unroll_fori` unrolls
+`fori_loop`; contracts use this as the model-query twin of a symbolic proof attempt.
+
+Everything registers itself through `engine.EXTERNAL` and the hooks of `pyvc.models` (previous hooks are chained); functions
+of `pyvc.models` without a hook are wrapped (not edited): `compare`, `unary`, the builtins `int` / `range`.
 """
 import ast
 import itertools
@@ -2042,8 +2049,11 @@ class Clause:
     def __init__(self, name, extents, body, pats=None):
         self.name, self.extents, self.body, self.pats = name, tuple(extents), body, pats
 
+    def formula(self):
+        return ALL(len(self.extents), self.body, self.pats, shape=self.extents)
+
     def assume(self, it):
-        fact(it, ALL(len(self.extents), self.body, self.pats, shape=self.extents))
+        fact(it, self.formula())
 
     def goal(self, it):
         run = getattr(it, 'run', it)          # an Interp or a Run
@@ -2085,6 +2095,35 @@ def havoc(it, v, name='carry'):
     raise Unsupported('havoc of loop-carried value %r' % (v,))
 
 
+def carry_mismatch(it, a, b):
+    """a description of a definite difference in pytree structure / shape / dtype between two loop carries, or None."""
+    ca, cb = tree_children(a), tree_children(b)
+    if (ca is None) != (cb is None):
+        return 'structure %r vs %r' % (a, b)
+    if ca is not None:
+        if len(ca[1]) != len(cb[1]):
+            return 'structure %r vs %r' % (a, b)
+        for x, y in zip(ca[1], cb[1]):
+            m = carry_mismatch(it, x, y)
+            if m:
+                return m
+        return None
+    if isinstance(a, JArr) != isinstance(b, JArr):
+        if isinstance(a, JArr) and a.rank == 0 or isinstance(b, JArr) and b.rank == 0:
+            return None
+        return 'array vs %r' % (b if isinstance(a, JArr) else a,)
+    if isinstance(a, JArr):
+        if a.rank != b.rank:
+            return 'rank %d vs %d' % (a.rank, b.rank)
+        for x, y in zip(a.shape, b.shape):
+            d = z3.simplify(zi(x) == zi(y))
+            if z3.is_false(d):
+                return 'shape %s vs %s' % (a.shape, b.shape)
+        if a.dtype != b.dtype and 'bool' in (a.dtype, b.dtype):
+            return 'dtype %s vs %s' % (a.dtype, b.dtype)
+    return None
+
+
 def _fori_loop(it, args, kw):
     lower = unwrap0(_arg(args, kw, 0, 'lower'))
     upper = unwrap0(_arg(args, kw, 1, 'upper'))
@@ -2098,6 +2137,9 @@ def _fori_loop(it, args, kw):
         val = init
         for i in range(lo_c, up_c):
             val = it.call(body, [i, val], {})
+            mm = carry_mismatch(it, init, val)
+            if mm:
+                raise PyRaise(it.make_exc('TypeError', ['scanned function carry input and carry output must have the same type structure: ' + mm]))
         return val
     key = (fv.mod.dotted, getattr(fv.node, 'name', '<lambda>'))
     spec = FORI.get(key)
@@ -2119,6 +2161,9 @@ def _fori_loop(it, args, kw):
         for cl in spec.invariant(it, carry, i, ctx):
             cl.assume(it)
         out = it.call(body, [i, carry], {})
+        mm = carry_mismatch(it, init, out)
+        if mm:
+            raise PyRaise(it.make_exc('TypeError', ['scanned function carry input and carry output must have the same type structure: ' + mm]))
         ctx['phase'] = 'preserve'
         ctx['head_carry'] = carry
         for cl in spec.invariant(it, out, i + 1, ctx):
